@@ -8,7 +8,7 @@ Tie: a serving.Requestant / clienting.Respondent of the working tree is fed the 
 Oracle (independent of the model): for generated well-formed messages the fields after any split must equal the
      fields after one receive of the whole stream, must equal the content the message was rendered from, and the
      bytes after the message must be left in the buffer."""
-import itertools
+import itertools, os
 import core
 
 METHODS = ["GET", "HEAD", "PUT", "PATCH", "POST", "DELETE", "OPTIONS", "TRACE", "CONNECT"]
@@ -272,8 +272,10 @@ class CHECK(core.Check):
                "evaluation in the examples only",
                "lines are CRLF terminated, contain no bare CR/LF and are shorter than MAX_LINE_SIZE (at exactly "
                "MAX_LINE_SIZE bytes + CR the code's LineTooLong test depends on whether the LF has arrived)",
-               "pipelined messages after makeParser() are in the model and in the correspondence runs but not in the "
-               "theorems (responses preceded by 100-Continue interim responses are)",
+               "the content of a second message parsed by a reused parser (makeParser) is judged by the oracle only on a "
+               "tree with fixes/D29c-parsemessage-reset-parms-trails.patch (without it .parms/.trails of the previous "
+               "message survive: reported defect, replay replays/C29-D29c-unpatched.json with C29_JUDGE_REUSE=1); the "
+               "model follows whichever tree is under test",
                "responses with Content-Type text/event-stream (body handed to EventSource, see C33) and request targets "
                "whose netloc has brackets or non-ASCII characters are explicitly outside the model ('unmodelled')"]
     TECHNIQUE = ("Lean 4 theorems (generic script theorem for a resumable parser: a stream that is a sequence of segments "
@@ -288,7 +290,9 @@ class CHECK(core.Check):
                   "bytes after the message stay in the buffer; any two splits of such a stream give the same complete "
                   "parser state (C29_split_independent); header lines are read the same with or without white space "
                   "after the colon (C29_header_ows); request lines are read as their tokens (C29_request_line), hexadecimal "
-                  "chunk sizes as their value (C29_chunk_size_line).")
+                  "chunk sizes as their value (C29_chunk_size_line). All of this holds from any fresh parser state, in "
+                  "particular for the next message on a reused parser (C29_reused_parser_is_fresh, "
+                  "C29_next_message_split_independent).")
     LEVEL_NOTE = ("Trusted: Lean kernel; axioms propext, Classical.choice, Quot.sound; the hand transcription of "
                   "httping/serving/clienting parsers validated by the correspondence runs; CPython str/bytes/int "
                   "primitives and urlsplit. Line-level reading of status lines and chunk size lines enters the theorems "
@@ -411,23 +415,31 @@ class CHECK(core.Check):
         return self._mk(kind, m["method"], total, cuts, close=closeit, maxline=rng.choice([65536, 65536, 65536, 40, 12]))
 
     def _pipelined(self, rng):
+        """two messages on one connection: the parser is reused (makeParser) as soon as the first is complete"""
         kind = rng.choice(["req", "rsp"])
         m1 = gen_message(rng, kind)
         m2 = gen_message(rng, kind)
         while m1["needs_close"] or m1["method"] != m2["method"]:
             m1 = gen_message(rng, kind)
         total = m1["stream"] + m2["stream"]
-        k = rng.choice([0, 1, 2, 3])
+        k = rng.choice([0, 1, 2, 3, 5])
         cuts = sorted(rng.sample(range(len(total) + 1), min(k, len(total) + 1)))
-        return self._mk(kind, m2["method"] if kind == "rsp" else "GET", total, cuts, close=m2["needs_close"], nxt=True)
+        # makeParser() right after the receive that completes message 1
+        ends = list(cuts) + [len(total)]
+        nxt = next(i for i, e in enumerate(ends) if e >= len(m1["stream"]))
+        c = self._mk(kind, m2["method"] if kind == "rsp" else "GET", total, cuts, close=m2["needs_close"], expect=m2["expect"])
+        c["next"] = True
+        c["next_at"] = nxt
+        return c
 
     def _ops(self, case):
         total = unhx(case["stream"]) + unhx(case["rest"])
         ops = list(pieces_of(total, case["cuts"]))
+        if case.get("next"):
+            at = case.get("next_at", len(ops) - 1)
+            ops = ops[:at + 1] + ["n"] + ops[at + 1:]
         if case.get("close"):
             ops += ["c", "p"]
-        if case.get("next"):
-            ops += ["n"]
         return ops
 
     def impl(self, case):
@@ -444,21 +456,42 @@ class CHECK(core.Check):
             CHECK._d18 = "escaped=~" in out[0]
         return CHECK._d18
 
+    _d29c = None
+
+    def _has_d29c(self):
+        """does parseMessage reset .parms/.trails (fixes/D29c-…)?  Detected like D18; the oracle below judges
+        reused parsers, the model follows whichever tree is under test."""
+        if CHECK._d29c is None:
+            out = run_impl("req", "GET", [b"POST /a HTTP/1.1\r\nTransfer-Encoding: chunked\r\n\r\n0\r\nT: 1\r\n\r\n"
+                                          b"GET /b HTTP/1.1\r\n\r\n", "n"])
+            CHECK._d29c = "trails N" in out
+        return CHECK._d29c
+
     def requests(self, case):
         ops = [o if isinstance(o, str) else "f" + hx(o) for o in self._ops(case)]
-        return ["%s%s %s %d %s" % (case["kind"], "" if self._has_d18() else "!", case["method"], case["max"], " ".join(ops))]
+        sfx = ("" if self._has_d18() else "!") + ("" if self._has_d29c() else "~")
+        return ["%s%s %s %d %s" % (case["kind"], sfx, case["method"], case["max"], " ".join(ops))]
 
     def model_post(self, case, replies):
         return replies[0].split(" | ")
 
     def oracle(self, case, out):
         exp = case.get("expect")
-        if exp is None or case.get("next"):
+        if exp is None:
+            return None
+        if case.get("next") and not self._has_d29c() and not os.environ.get("C29_JUDGE_REUSE"):
+            # a reused parser keeps .parms/.trails of the previous message until fixes/D29c-… is applied (reported
+            # defect, replay replays/C29-D29c-unpatched.json); the reused-parser content check starts with that fix
+            if not getattr(CHECK, "_noted", False):
+                CHECK._noted = True
+                print("NOTE property=C29 fixes/D29c-parsemessage-reset-parms-trails.patch not applied: "
+                      "parms/trails of a reused parser are not judged in this run")
             return None
         if out and out[0].startswith("HARNESS-EXC"):
             return "adapter raised: " + out[0]
         total = unhx(case["stream"]) + unhx(case["rest"])
-        whole = run_impl(case["kind"], case["method"], [total] + (["c", "p"] if case.get("close") else []), case["max"])
+        whole = run_impl(case["kind"], case["method"], [total] + (["n"] if case.get("next") else []) +
+                         (["c", "p"] if case.get("close") else []), case["max"])
         if out != whole:
             d = [(a, b) for a, b in zip(out, whole) if a != b][:2]
             return "split-dependent: cuts %r: %r" % (case["cuts"], d or (out[-2:], whole[-2:]))
@@ -483,6 +516,8 @@ class CHECK(core.Check):
         wtr = ["trails N"] if exp["trails"] is None else ["trail %s %s" % (lat(k), lat(v)) for k, v in exp["trails"]]
         if tr != wtr:
             return "trailers %r differ from content %r" % (tr, wtr)
+        if exp["parms"] is None and not any(l.startswith("parms N") for l in out) and "chunked=T" not in out[2]:
+            return "chunk extension parms %r on a message that has none" % [l for l in out if l.startswith("parm")]
         if out[-1] != "left " + case["rest"]:
             return "bytes after the message not left in the buffer: %s, sent %s" % (out[-1], case["rest"])
         return None
